@@ -24,7 +24,7 @@ class MySQLParser(SQLParser):
         ('left', AND),
         ('right', UNOT),
         ('left', EQUALS, NEQUALS),
-        ('nonassoc', LESS, LEQ, GREATER, GEQ, IN, BETWEEN, IS, IS_NOT, LIKE),
+        ('nonassoc', LESS, LEQ, GREATER, GEQ, IN, BETWEEN, IS, IS_NOT, LIKE, NOT),  # NOT: the first token of `expr NOT IN expr`
         ('left', PLUS, MINUS),
         ('left', STAR, DIVIDE, MODULO),
         ('right', UMINUS),  # Unary minus operator, unary not
